@@ -47,19 +47,30 @@ func (eval Evaluator) Trace(ctIn *Ciphertext, logN int, opOut *Ciphertext) (err 
 
 	*opOut.MetaData = *ctIn.MetaData
 
-	gap := 1 << (params.LogN() - logN - 1)
+	// Number of automorphisms that are summed, and largest power of two of the rotations (excluded).
+	// In the standard ring the rotations X -> X^{5^k} form a group of order N/2, completed by X -> X^{-1}.
+	// In the conjugate-invariant ring they form a group of order N and X -> X^{-1} is the identity.
+	logGap := params.LogN() - logN - 1
+	maxLogRot := params.LogN() - 1
 
-	if logN == 0 {
-		gap <<= 1
+	switch params.RingType() {
+	case ring.ConjugateInvariant:
+		logGap++
+		maxLogRot++
+	default:
+		if logN == 0 {
+			logGap++
+		}
+	}
+
+	gap := 1
+	if logGap > 0 {
+		gap <<= logGap
 	}
 
 	if gap > 1 {
 
 		ringQ := params.RingQ().AtLevel(level)
-
-		if ringQ.Type() == ring.ConjugateInvariant {
-			gap >>= 1 // We skip the last step that applies phi(5^{-1})
-		}
 
 		/* #nosec G115 -- gap cannot be negative */
 		NInv := new(big.Int).SetUint64(uint64(gap))
@@ -85,7 +96,7 @@ func (eval Evaluator) Trace(ctIn *Ciphertext, logN int, opOut *Ciphertext) (err 
 
 		buff.IsNTT = true
 
-		for i := logN; i < params.LogN()-1; i++ {
+		for i := logN; i < maxLogRot; i++ {
 
 			if err = eval.Automorphism(opOut, params.GaloisElement(1<<i), buff); err != nil {
 				return err
@@ -126,8 +137,15 @@ func GaloisElementsForTrace(params ParameterProvider, logN int) (galEls []uint64
 
 	p := params.GetRLWEParameters()
 
+	// The rotations form a group of order N/2 in the standard ring (completed by X -> X^{-1} for the full trace)
+	// and of order N in the conjugate-invariant ring (where X -> X^{-1} is the identity).
+	maxLogRot := p.LogN() - 1
+	if p.RingType() == ring.ConjugateInvariant {
+		maxLogRot++
+	}
+
 	galEls = []uint64{}
-	for i, j := logN, 0; i < p.LogN()-1; i, j = i+1, j+1 {
+	for i := logN; i < maxLogRot; i++ {
 		galEls = append(galEls, p.GaloisElement(1<<i))
 	}
 
@@ -136,7 +154,6 @@ func GaloisElementsForTrace(params ParameterProvider, logN int) (galEls []uint64
 		case ring.Standard:
 			galEls = append(galEls, p.GaloisElementOrderTwoOrthogonalSubgroup())
 		case ring.ConjugateInvariant:
-			panic("cannot GaloisElementsForTrace: Galois element GaloisGen^-1 is undefined in ConjugateInvariant Ring")
 		default:
 			panic("cannot GaloisElementsForTrace: invalid ring type")
 		}
